@@ -33,7 +33,8 @@ Bool(b) == [k |-> "bool", b |-> b]
 AsInt(v) == IF v.k = "blank" THEN 0 ELSE IF v.k = "bool" THEN (IF v.b THEN 1 ELSE 0) ELSE v.n
 \* the value a client writes: an integer, or a truth value (written 1001 / 1000 in the constants of a model, since a TLC set cannot
 \* mix integers and booleans).  TRUE and 1 are DIFFERENT cell contents: the cell reports what was written, type included.
-OvVal(n) == IF n = 1001 THEN Bool(TRUE) ELSE IF n = 1000 THEN Bool(FALSE) ELSE Num(n)
+\* 999 stands for "no content" (the client writes None): the cell is blank from then on, as in a workbook where it was cleared
+OvVal(n) == IF n = 1001 THEN Bool(TRUE) ELSE IF n = 1000 THEN Bool(FALSE) ELSE IF n = 999 THEN Blank ELSE Num(n)
 
 Arith(o, x, y) ==
   IF x.k = "err" \/ y.k = "err" THEN Err
